@@ -36,7 +36,7 @@ void operator delete[](void* p, std::size_t) noexcept { std::free(p); }
 #ifdef SIM_TSAN
 extern "C" __attribute__((used)) const char* __tsan_default_options()
 {
-    return "halt_on_error=1:exitcode=78:report_signal_unsafe=0:second_deadlock_stack=0:ignore_interceptors_accesses=1";
+    return "halt_on_error=1:exitcode=78:report_signal_unsafe=0:second_deadlock_stack=0:ignore_interceptors_accesses=0";
 }
 #endif
 
